@@ -52,6 +52,18 @@ func zeroSize(t *ga.Type) bool {
 	return false
 }
 
+// emptyArray: [0]T, [n][0]T, ...: copying such an element executes no statement, so a destination
+// slice that is too short is never indexed (outside the property and outside the model).
+func emptyArray(t *ga.Type) bool {
+	switch t.K {
+	case ga.KNamed:
+		return emptyArray(t.Elem)
+	case ga.KArray:
+		return t.N == 0 || emptyArray(t.Elem)
+	}
+	return false
+}
+
 func isRefGo(tgo string) bool {
 	return strings.HasPrefix(tgo, "[]") || strings.HasPrefix(tgo, "map[") || tgo == "NSl" || tgo == "NMap"
 }
@@ -74,6 +86,13 @@ var (
 		WrapFn: func(idx int) string { return fmt.Sprintf("dcd_%d", idx) }}
 	callClone = ga.Simple("clone", "deriveClone", "src %T", "%T", "src")
 )
+
+func under(t *ga.Type) *ga.Type {
+	if t.K == ga.KNamed {
+		return t.Elem
+	}
+	return t
+}
 
 func wrapP(label int, v *ga.Val) *ga.Val { return &ga.Val{K: "p", Loc: label, Elems: []*ga.Val{v}} }
 
@@ -147,12 +166,12 @@ func loadCorpus(dir string) map[string][]string {
 func Run(cfg hx.Config) (*hx.Meta, error) {
 	corpus := loadCorpus(cfg.Corpus)
 	var corpusRun int64
-	perSrc := 5
+	perSrc := 8
 	if cfg.Tier == "thorough" {
-		perSrc = 7
+		perSrc = 1 << 30
 	}
 	vr := &ga.ValueRun{
-		Prop: "C05", Calls: []ga.Call{callDCP, callDCD, callClone}, SupObs: "sup-dc", PoolQuick: 10, PoolThorough: 16,
+		Prop: "C05", Calls: []ga.Call{callDCP, callDCD, callClone}, SupObs: "sup-dc", PoolQuick: 10, PoolThorough: 20,
 		Extra: map[string]string{"drv_c05.go": driverSource},
 		Cases: func(idx int, t *ga.Type, vals []*ga.Val, r *hx.Rand, out *strings.Builder) {
 			// labels of the relabelled destinations: disjoint from the pools' labels, below the
@@ -210,6 +229,9 @@ func Run(cfg hx.Config) (*hx.Meta, error) {
 						inProp = (s.K == "nils") == (d.K == "nils") && length(s) == length(d)
 					case "m":
 						inProp = (s.K == "nilm") == (d.K == "nilm") && length(d) == 0
+					}
+					if !inProp && rk == "sl" && emptyArray(under(t).Elem) {
+						continue
 					}
 					if inProp || r.Intn(4) == 0 {
 						fmt.Fprintf(out, "dcd %d %s %s\n", idx, s.Sexp(), d.Clone(fresh).Sexp())
